@@ -250,6 +250,26 @@ class SourceScope(Scope):
         source = self.source.with_mark(position)
         return SourceScope(source)
 
+    def alias_start(self, node, alias):
+        # type: (AST, t.Any) -> loc_t
+        """Where the search for the identifier an import alias binds begins: at
+        the alias itself, since the module path or an earlier alias may spell
+        the same identifier (from mod.x import y as mod), and right before its
+        last identifier if it has an asname (import o as o)."""
+        try:
+            if alias.asname:
+                ln, col = alias.end_lineno, alias.end_col_offset - len(alias.asname.encode('utf-8'))
+            else:
+                ln, col = alias.lineno, alias.col_offset
+            line = self.source.lines[ln - 1]
+        except (AttributeError, TypeError, IndexError):  # no alias positions before Python 3.10
+            return np(node)
+        # ast counts columns in UTF-8 bytes
+        col = len(line.encode('utf-8')[:col].decode('utf-8', 'ignore'))
+        if col == 0:  # first thing on a continuation line: search from the end of the line before
+            return ln - 1, len(self.source.lines[ln - 2])
+        return ln, col - 1
+
     def find_id_loc(self, id, start, shift=0, delimeters=True):
         # type: (str, loc_t, int, bool) -> loc_t
         sl, pos = start
